@@ -69,15 +69,22 @@ fn gamma(a: Decimal) -> Decimal {
     }
 }
 
+fn checked(value: Option<Decimal>) -> Result<Decimal, Box<dyn error::Error>> {
+    match value {
+        Some(value) => Ok(value),
+        None => Err("Result outside the domain or range of Decimal".into()),
+    }
+}
+
 pub fn eval(expr: Node) -> Result<Decimal, Box<dyn error::Error>> {
     use self::Node::*;
     match expr {
         Number(i) => Ok(i),
-        Add(expr1, expr2) => Ok(eval(*expr1)? + eval(*expr2)?),
-        Subtract(expr1, expr2) => Ok(eval(*expr1)? - eval(*expr2)?),
-        Multiply(expr1, expr2) => Ok(eval(*expr1)? * eval(*expr2)?),
-        Divide(expr1, expr2) => Ok(eval(*expr1)? / eval(*expr2)?),
-        Modulo(expr1, expr2) => Ok(eval(*expr1)? % eval(*expr2)?),
+        Add(expr1, expr2) => checked(eval(*expr1)?.checked_add(eval(*expr2)?)),
+        Subtract(expr1, expr2) => checked(eval(*expr1)?.checked_sub(eval(*expr2)?)),
+        Multiply(expr1, expr2) => checked(eval(*expr1)?.checked_mul(eval(*expr2)?)),
+        Divide(expr1, expr2) => checked(eval(*expr1)?.checked_div(eval(*expr2)?)),
+        Modulo(expr1, expr2) => checked(eval(*expr1)?.checked_rem(eval(*expr2)?)),
         Negative(expr1) => Ok(-(eval(*expr1)?)),
         Abs(sub_expr) => Ok(eval(*sub_expr)?.abs()),
         Floor(sub_expr) => Ok(eval(*sub_expr)?.floor()),
@@ -85,12 +92,19 @@ pub fn eval(expr: Node) -> Result<Decimal, Box<dyn error::Error>> {
         Round(sub_expr) => Ok(eval(*sub_expr)?.round()),
         Truncate(sub_expr) => Ok(eval(*sub_expr)?.trunc()),
         Sign(sub_expr) => Ok(eval(*sub_expr)?.signum()),
-        Ln(sub_expr) => Ok(eval(*sub_expr)?.ln()),
-        Lb(sub_expr) => Ok(eval(*sub_expr)?.ln() / Decimal::new(2, 0).ln()),
-        Exp(sub_expr) => Ok(eval(*sub_expr)?.exp()),
-        Exp2(sub_expr) => Ok(Decimal::new(2, 0).powd(eval(*sub_expr)?)),
-        Pow(expr1, expr2) => Ok(eval(*expr1)?.powd(eval(*expr2)?)),
-        Log(expr1, expr2) => Ok(eval(*expr1)?.ln() / eval(*expr2)?.ln()),
+        Ln(sub_expr) => checked(eval(*sub_expr)?.checked_ln()),
+        Lb(sub_expr) => {
+            let ln_x = checked(eval(*sub_expr)?.checked_ln())?;
+            checked(ln_x.checked_div(Decimal::new(2, 0).ln()))
+        }
+        Exp(sub_expr) => checked(eval(*sub_expr)?.checked_exp()),
+        Exp2(sub_expr) => checked(Decimal::new(2, 0).checked_powd(eval(*sub_expr)?)),
+        Pow(expr1, expr2) => checked(eval(*expr1)?.checked_powd(eval(*expr2)?)),
+        Log(expr1, expr2) => {
+            let ln_x = checked(eval(*expr1)?.checked_ln())?;
+            let ln_b = checked(eval(*expr2)?.checked_ln())?;
+            checked(ln_x.checked_div(ln_b))
+        }
         Factorial(sub_expr) => {
             let sub_result = eval(*sub_expr)?;
             if sub_result >= Decimal::ZERO {
@@ -98,8 +112,12 @@ pub fn eval(expr: Node) -> Result<Decimal, Box<dyn error::Error>> {
                     Ok(gamma(sub_result + Decimal::new(1, 0)))
                 } else {
                     let mut factorial_result = Decimal::new(1, 0);
-                    for i in 2..=sub_result.to_i64().unwrap() {
-                        factorial_result *= Decimal::new(i, 0);
+                    let n = match sub_result.to_i64() {
+                        Some(n) => n,
+                        None => return Err("Result outside the domain or range of Decimal".into()),
+                    };
+                    for i in 2..=n {
+                        factorial_result = checked(factorial_result.checked_mul(Decimal::new(i, 0)))?;
                     }
                     Ok(factorial_result)
                 }
@@ -142,12 +160,16 @@ pub fn eval(expr: Node) -> Result<Decimal, Box<dyn error::Error>> {
             Some(result) => Ok(result),
             None => Err("Unable to compute the square root of negative number".into()),
         },
-        Root(n_th_expr, x_expr) => Ok(eval(*x_expr)?.powd(Decimal::new(1, 0) / eval(*n_th_expr)?)),
+        Root(n_th_expr, x_expr) => {
+            let x = eval(*x_expr)?;
+            let exponent = checked(Decimal::new(1, 0).checked_div(eval(*n_th_expr)?))?;
+            checked(x.checked_powd(exponent))
+        }
         Min(args) => {
             if args.len() > 1 {
                 let mut result = Decimal::MAX;
                 for arg in <Vec<Node> as Clone>::clone(&args).into_iter() {
-                    result = eval(arg).unwrap().min(result);
+                    result = eval(arg)?.min(result);
                 }
                 Ok(result)
             } else {
@@ -161,7 +183,7 @@ pub fn eval(expr: Node) -> Result<Decimal, Box<dyn error::Error>> {
             if args.len() > 1 {
                 let mut result = Decimal::MIN;
                 for arg in <Vec<Node> as Clone>::clone(&args).into_iter() {
-                    result = eval(arg).unwrap().max(result);
+                    result = eval(arg)?.max(result);
                 }
                 Ok(result)
             } else {
@@ -174,19 +196,19 @@ pub fn eval(expr: Node) -> Result<Decimal, Box<dyn error::Error>> {
         Avg(args) => {
             let mut result = Decimal::ZERO;
             for arg in <Vec<Node> as Clone>::clone(&args).into_iter() {
-                result += eval(arg).unwrap();
+                result = checked(result.checked_add(eval(arg)?))?;
             }
-            Ok(result / Decimal::new(args.len() as i64, 0))
+            checked(result.checked_div(Decimal::new(args.len() as i64, 0)))
         }
         Med(args) => {
             let mut results = vec![];
             for arg in <Vec<Node> as Clone>::clone(&args).into_iter() {
-                results.push(eval(arg).unwrap());
+                results.push(eval(arg)?);
             }
             results.sort_by(|a, b| a.partial_cmp(b).unwrap());
             let len = results.len();
             if len % 2 == 0 {
-                Ok((results[len >> 1] + results[(len >> 1) - 1]) / Decimal::new(2, 0))
+                Ok(checked(results[len >> 1].checked_add(results[(len >> 1) - 1]))? / Decimal::new(2, 0))
             } else {
                 Ok(results[len >> 1])
             }
